@@ -542,3 +542,29 @@ func TestVerifC04RpcWire(t *testing.T) {
 	}
 	m.Extra("exhaustive", true)
 }
+
+// ---- exported for the external test package (c04_rpcstart_verif_test.go), which may
+// import github.com/gotid/god/rpc without an import cycle ----------------------------
+
+var (
+	C04Calls       = c04Calls
+	C04Expect      = c04Expect
+	C04NewStores   = c04NewStores
+	C04StoreStates = c04StoreStates
+	C04RpcRule     = c04RpcRule
+)
+
+const C04AppsKey = c04AppsKey
+
+func C04StoreAddr(s *c04Stores, state string) string { return s.addr(state) }
+func C04CloseStores(s *c04Stores)                    { s.close() }
+func C04MD(c c04Call) metadata.MD                    { return c.md() }
+
+// C04JudgeWire judges a call observed at a client: "handler ran" is the OK status.
+func C04JudgeWire(m *vk.M, desc, entry, state string, strict bool, c c04Call, err error, dur time.Duration) bool {
+	out := c04Outcome{err: err, code: status.Code(err), dur: dur}
+	if err == nil {
+		out.ran = 1
+	}
+	return c04Judge(m, desc, entry, state, strict, c, out)
+}
